@@ -450,3 +450,61 @@ theorem ms_plus_none (s : List Char) (rs : List (Nat × Nat)) (K : Re) (c : Caps
   simp [ms, hstep]
 
 end Shk.Tpl
+
+namespace Shk.Tpl
+open Shk.Re
+
+theorem compile_consLit (c : Char) (p : List Tok × Fin) :
+    compile (consLit c p).1 (consLit c p).2 = .cat (.chr c.toNat) (compile p.1 p.2) := by
+  obtain ⟨T, f⟩ := p
+  cases T with
+  | nil => simp [consLit, compile, Re.strThen]
+  | cons t T =>
+    cases t <;> simp [consLit, compile, Re.strThen]
+
+theorem decompile_sound : ∀ (r : Re) (T : List Tok) (f : Fin), decompile r = some (T, f) → r = compile T f := by
+  intro r
+  induction r using decompile.induct with
+  | case1 => intro T f h; simp [decompile] at h; obtain ⟨rfl, rfl⟩ := h; rfl
+  | case2 i nm => intro T f h; simp [decompile] at h; obtain ⟨rfl, rfl⟩ := h; rfl
+  | case3 => intro T f h; simp [decompile] at h; obtain ⟨rfl, rfl⟩ := h; rfl
+  | case4 ws hws => intro T f h; simp [decompile, hws] at h
+  | case5 K ih =>
+    intro T f h
+    simp only [decompile, if_true, Option.map_eq_some_iff] at h
+    obtain ⟨p, hp, heq⟩ := h
+    obtain ⟨T', f'⟩ := p
+    simp only [Prod.mk.injEq] at heq
+    obtain ⟨rfl, rfl⟩ := heq
+    rw [ih T' f' hp]; rfl
+  | case6 ws K hws => intro T f h; simp [decompile, hws] at h
+  | case7 i nm K ih =>
+    intro T f h
+    simp only [decompile, if_true, Option.map_eq_some_iff] at h
+    obtain ⟨p, hp, heq⟩ := h
+    obtain ⟨T', f'⟩ := p
+    simp only [Prod.mk.injEq] at heq
+    obtain ⟨rfl, rfl⟩ := heq
+    rw [ih T' f' hp]; rfl
+  | case8 i nm ns K hns => intro T f h; simp [decompile, hns] at h
+  | case9 c K hc ih =>
+    intro T f h
+    simp only [decompile, hc, if_true, Option.map_eq_some_iff] at h
+    obtain ⟨p, hp, heq⟩ := h
+    have := compile_consLit (Char.ofNat c) p
+    rw [heq] at this
+    simp only at this
+    rw [this, hc, ← ih p.1 p.2 (by simpa using hp)]
+  | case10 c K hc => intro T f h; simp [decompile, hc] at h
+  | case11 t h1 h2 h3 h4 h5 h6 =>
+    intro T f h
+    unfold decompile at h
+    split at h <;> first | (exfalso; first | exact h1 rfl | exact h2 _ _ rfl | exact h3 _ rfl | exact h4 _ _ rfl | exact h5 _ _ _ _ rfl | exact h6 _ _ rfl) | simp_all
+
+theorem templateOf_sound (r : Re) (T : List Tok) (f : Fin) (h : templateOf r = some (T, f)) : r = re T f := by
+  unfold templateOf at h
+  split at h
+  · rw [decompile_sound _ T f h]; rfl
+  · cases h
+
+end Shk.Tpl
